@@ -265,13 +265,16 @@ fn search_region() {
 fn search_c09() {
     let mut found = 0usize;
     let mut rng = Rng(seed());
-    for (bytes, ps) in [(0usize, 1usize), (1, 1), (100, 128), (129, 128), (64 * 128, 128), (64 * 128 + 1, 128), (8192, 3), (1000, 4096), (130, 1)] {
+    for (bytes, ps) in [(0usize, 1usize), (1, 1), (100, 128), (129, 128), (64 * 128, 128), (64 * 128 + 1, 128), (8192, 3), (1000, 4096), (130, 1), (300, 1), (64 * 5 * 16, 16)] {
         let b = AtomicBitmap::new(bytes, NonZeroUsize::new(ps).unwrap());
         let pages = (bytes + ps - 1) / ps;
         let mut model: BTreeSet<usize> = BTreeSet::new();
         let vals = boundary(bytes as u64);
         for step in 0..600 {
-            let s = rng.pick(&vals) as usize; let l = match rng.next() % 4 { 0 => 0, 1 => 1, 2 => (rng.next() % (3 * ps as u64 + 2)) as usize, _ => rng.pick(&vals) as usize };
+            // starts: boundary values or anywhere in the bitmap; lengths: empty, one byte, a few pages, MANY pages
+            // (whole 64-page words lie inside the range, from aligned and unaligned first pages), boundary values
+            let s = if rng.next() % 3 == 0 { (rng.next() % (bytes as u64 + ps as u64 + 1)) as usize } else { rng.pick(&vals) as usize };
+            let l = match rng.next() % 5 { 0 => 0, 1 => 1, 2 => (rng.next() % (3 * ps as u64 + 2)) as usize, 3 => (rng.next() % (200 * ps as u64 + 2)) as usize, _ => rng.pick(&vals) as usize };
             let op = rng.next() % 5;
             // half of the steps start from a clean bitmap, so that a missing mark is not hidden by an older one
             if rng.next() % 2 == 0 { b.reset(); model.clear(); }
@@ -297,7 +300,7 @@ fn search_c09() {
             if found > 40 { break; }
         }
     }
-    println!("CASES 5400");
+    println!("CASES 6600");
     assert!(found == 0);
 }
 
